@@ -39,7 +39,7 @@ CLAIMS["C18"] = dict(
 CLAIMS["C03"] = dict(
   level="other",
   technique="static analysis: table agreement between bind literals (type-checked constants) and the command registry; guard facts, must-pass-through and value slices on the dispatcher's SSA",
-  text="Decides that every built-in bound action resolves to a registered command (or a frozen reviewed list of unimplemented names), that MatchMain/MatchLocal account for read keys exactly once with the right slices, that each dispatch iteration consumes one key, that the command looked up is the matched bind's and never a macro's, macro binds are re-fed decoded at the tail, and nil commands are not called. The prefix-matching semantics of matchBind are value-level and not decided.",
+  text="Decides that every built-in bound action resolves to a registered command (or a frozen reviewed list of unimplemented names), that MatchMain/MatchLocal account for read keys exactly once with the right slices, that each dispatch iteration consumes one key, that the command looked up is the matched bind's and never a macro's, macro binds are re-fed decoded at the tail, and nil commands are not called. The prefix-matching semantics of matchBind are value-level and not decided. Also: falling back to a remembered shorter bind, the dispatcher takes only that bind's keys and hands the later ones back (C03.fallback-keeps-later-keys).",
   ref="§5 C03")
 
 CLAIMS["C07"] = dict(
